@@ -276,7 +276,44 @@ def run_task(task):
 
 
 def replay(cex):
-    d = cex['data']
+    if cex.get('tag') == 'resolve-differs':
+        # the symbolic finding is about the code, not about one instance: look for a
+        # concrete instance (pool of shapes x seeded numerics) on which it shows
+        rng = random.Random(5)
+        d0 = cex['data']
+        pool = [lpchecks.shape_from(d0['shape'])] + [s for s in shapes.corner_shapes() if s.ns <= 3]
+        last = (False, 'no instance of the replay pool exhibits a different re-solve result')
+        for I0 in pool:
+            if ('twopl' in d0['flags']) and I0.lprefs is None:
+                continue
+            for trial in range(16):
+                puq = [rng.choice([1, 1, 2]) for _ in range(I0.np)]
+                plq = [rng.choice([0, 1]) if trial % 2 else 0 for _ in range(I0.np)]
+                plq = [min(a, b) for a, b in zip(plq, puq)]
+                if I0.na == 3:
+                    lt = [rng.choice([0, 1, 2]) for _ in range(I0.nl)]
+                    luq = [max(t, rng.choice([1, 2, 3])) for t in lt]
+                    llq = [rng.choice([0, 1]) if trial % 2 else 0 for _ in range(I0.nl)]
+                    llq = [min(a, b) for a, b in zip(llq, lt)]
+                    I = I0.with_numerics(plq, puq, llq, lt, luq)
+                else:
+                    I = I0.with_numerics(plq, puq, list(plq), list(puq), list(puq))
+                Ichk = I if 'twopl' in d0['flags'] else spec.Inst(I.na, I.ns, I.np, I.nl, I.prefs, I.plec, None, I.plq, I.puq, I.llq, I.lt, I.luq)
+                if not spec.feasible_set(Ichk, 'pc' in d0['flags'], 'stab' in d0['flags']):
+                    continue
+                seq = [(c_, list(a_)) for c_, a_ in d0['seq']]
+                if not lpchecks.admissible(I, seq):
+                    continue
+                for fl in ([d0['flags']] + ([['twopl']] if I0.lprefs is not None and d0['flags'] != ['twopl'] else [])):
+                    d1 = dict(d0, inst=rp.inst_to_data(I), flags=fl)
+                    bad, detail = _replay_one(d1)
+                    if bad:
+                        return True, detail
+        return last
+    return _replay_one(cex['data'])
+
+
+def _replay_one(d):
     I = rp.inst_from_data(d['inst']) if 'inst' in d else None
     if I is None:
         I = lpchecks.shape_from(d['shape'])
@@ -309,7 +346,7 @@ def replay(cex):
                     notes.append('%s returned a different text on a later call' % g)
                 seen.setdefault(g, t)
             pr = rp.parse_results(s.get_results_short() if d.get('kind') != 'bf' else s.get_results())
-            stats.append((pr['status'], pr['size'], pr['cost'], pr['profile'], pr['sum_lec_abs_diff']))
+            stats.append((pr['status'], pr['size'], pr['cost'], pr['profile'], pr['sum_lec_abs_diff'], pr['cost_sq']))
             if rnd == 0:
                 seen = {}
                 s.solve()
@@ -340,7 +377,7 @@ def replay(cex):
 
 
 def _crit_values(I, seq, st):
-    status, size, cost, prof, sumdev = st
+    status, size, cost, prof, sumdev = st[:5]
     out = []
     for c, a in seq:
         if c in ('maxsize', 'minsize'):
@@ -349,6 +386,10 @@ def _crit_values(I, seq, st):
             y = a[0] if a else 1
             z = a[1] if len(a) > 1 else 0
             out.append(y * cost[0] + z * cost[1])
+        elif c == 'minsqcost':
+            y = a[0] if a else 1
+            z = a[1] if len(a) > 1 else 0
+            out.append(y * st[5][0] + z * st[5][1])
         elif c in ('gen', 'gre'):
             out.append(tuple(prof))
         elif c == 'lsb':
